@@ -555,7 +555,7 @@ with rebuild_ok_l (e : env) (t v : name) (l : vlist) : bool :=
   | VLCons x r => rebuild_ok e t v x && rebuild_ok_l e t v r
   end.
 
-Inductive cres := COk (x : val) | CErr | CPanic.
+Inductive cres := COk (x : val) | CErr | CPanic | CNil.   (* CNil: nil result and no error *)
 
 (* the response decoder: view = the one fixed in the design, else the goa-view header
    ("" when absent); Validate<T> rejects names the type does not define *)
@@ -726,3 +726,18 @@ Definition ctor_plan (e : env) (t v : name) : option (list (name * option (bool 
             | _, _ => []
             end) (r_attrs r))
   end.
+
+(* The response decoder validates the viewed result (view name included) only when the
+   response HAS a body type: when every attribute of the result travels in headers / cookies
+   the check is skipped, and New<T> (switch on the view, no default branch) hands back a nil
+   result without an error for a view name the type does not define. *)
+Definition bodyless (e : env) (t : name) (m : list name) : bool :=
+  match find_type e t with
+  | Some r => forallb (fun a => mem_name (a_name a) m) (r_attrs r)
+  | None => false
+  end.
+
+Definition client_decode_resp (e : env) (t : name) (fixed : option name) (hdr : option name)
+           (m : list name) (x : val) : cres :=
+  let v := norm (match fixed with Some f => f | None => match hdr with Some h => h | None => "" end end) in
+  if bodyless e t m && negb (has_view e t v) then CNil else client_decode e t fixed hdr x.
